@@ -87,8 +87,12 @@ func (ex *Exec) evalCallOperands(st *State, x *ast.CallExpr, k func(*State, *cal
 				if _, isIface := types.Unalias(recvT).Underlying().(*types.Interface); isIface {
 					ct.kind = "iface"
 					if tp, ok := types.Unalias(recvT).(*types.TypeParam); ok {
-						_ = tp
-						panic(unsupported("method call on type parameter"))
+						// method of a type parameter: the protocol contract of its (named) constraint
+						if cn, ok := types.Unalias(tp.Constraint()).(*types.Named); ok {
+							ct.ifaceNamed = cn
+						} else {
+							panic(unsupported("method call on a type parameter with an unnamed constraint"))
+						}
 					}
 					if n, ok := types.Unalias(recvT).(*types.Named); ok {
 						ct.ifaceNamed = n
@@ -267,7 +271,10 @@ func (ex *Exec) sliceLiteral(st *State, ty types.Type, vs []Val) Val {
 func (ex *Exec) invoke(st *State, ct *callTarget, k func(*State, []Val)) {
 	if st.frame.fi == ex.top && st.frame.closure == nil && ex.top.Spec != nil && len(ex.top.Spec.Anchors) > 0 && ct.call != nil {
 		name, ord := ex.callAnchor(ct)
-		if ex.runAnchors(st, "before", name, ord) {
+		ex.anchorArgs = ct.args
+		cutPath := ex.runAnchors(st, "before", name, ord)
+		ex.anchorArgs = nil
+		if cutPath {
 			return // `assume false`: the path is cut here (reported as an assumption)
 		}
 		k0 := k
@@ -323,6 +330,9 @@ func (ex *Exec) runAnchors(st *State, when, name string, ord int) (cut bool) {
 		for k, v := range st.frame.ghost {
 			env.bind[k] = v
 		}
+		for i, v := range ex.anchorArgs {
+			env.bind[fmt.Sprintf("callarg%d", i)] = v
+		}
 		for i, v := range ex.anchorResults {
 			env.bind[fmt.Sprintf("callresult%d", i)] = v
 			if i == 0 {
@@ -332,6 +342,17 @@ func (ex *Exec) runAnchors(st *State, when, name string, ord int) (cut bool) {
 		func() {
 			defer ex.specRecover("anchored clause in " + ex.top.Key)
 			switch an.Kind {
+			case "havoc":
+				// the named locations take arbitrary values (effects of callbacks that the callee's
+				// contract cannot name); what is known afterwards must be assumed explicitly
+				ex.w.assumed["havoc in "+ex.top.FullName()+" "+when+" call "+name+": "+an.Src] = true
+				targets := env.evalModifies(&Contract{Modifies: an.Havoc})
+				ws := &writeSet{vars: map[types.Object]bool{}, keys: map[string]*Sort{}}
+				for _, t := range targets {
+					ws.keys[t.key] = t.sort
+				}
+				pre := st.snapshot()
+				ex.havocHeap(st, pre, ws, targets)
 			case "ghost":
 				env.ghostUpdate(an.Ghost)
 			case "assert":
@@ -849,6 +870,11 @@ func (ex *Exec) callContract(st *State, c *Contract, fi *FuncInfo, ct *callTarge
 	}
 	normal := func(st *State) {
 		post := st
+		if c.Repeats != "" {
+			if ex.repeatCallback(st, c, ct, name, func(st *State) { ex.finishContractCall(st, pre, c, fi, ct, name, nil, nil, k) }) {
+				return
+			}
+		}
 		ex.havocHeap(post, pre, ws, targets)
 		penv := ex.contractEnv(post, c, fi, ct)
 		penv.old = pre
@@ -1727,4 +1753,133 @@ func typeInstances(fi *FuncInfo) ([]map[*types.TypeParam]types.Type, []string) {
 		insts, names = ni, nn
 	}
 	return insts, names
+}
+
+// finishContractCall: results and ensures of a contract call (used after a `repeats` emulation,
+// where the heap effect is that of the repeated callback).
+func (ex *Exec) finishContractCall(st *State, pre *State, c *Contract, fi *FuncInfo, ct *callTarget, name string, _ []modTarget, _ *writeSet, k func(*State, []Val)) {
+	penv := ex.contractEnv(st, c, fi, ct)
+	penv.old = pre
+	var results []Val
+	for i := 0; i < ct.sig.Results().Len(); i++ {
+		v := ex.freshVal(st, "res_"+name, ct.sig.Results().At(i).Type())
+		results = append(results, v)
+		if i < len(c.Results) && c.Results[i] != "" {
+			penv.bind[c.Results[i]] = v
+		}
+	}
+	func() {
+		defer ex.specRecover("ensures of " + name)
+		for _, e := range c.Ensures {
+			st.assume(penv.boolTerm(e.E))
+		}
+	}()
+	k(st, results)
+}
+
+// repeatCallback emulates an external function that calls one of its function arguments an
+// arbitrary number of times (rand.Shuffle's swap): the caller supplies an invariant
+// (`loop CALLEE: invariant ...` in its own block, keyed by the callee's name); it must hold
+// before, is preserved by one call of the callback with arbitrary arguments satisfying the
+// contract's `repeatargs` condition, and is all that is known afterwards.
+func (ex *Exec) repeatCallback(st *State, c *Contract, ct *callTarget, name string, k func(*State)) bool {
+	// which argument is the callback
+	pi := -1
+	pnames := c.Params
+	if ct.recv != nil && len(pnames) > 0 {
+		pnames = pnames[1:]
+	}
+	for i, p := range pnames {
+		if p == c.Repeats {
+			pi = i
+		}
+	}
+	if pi < 0 || pi >= len(ct.args) {
+		return false
+	}
+	cb := ct.args[pi]
+	if _, ok := ex.closures[cb.T]; !ok {
+		return false
+	}
+	var spec *LoopSpec
+	if ex.top.Spec != nil && ex.top.Spec.InLoops != nil {
+		spec = ex.top.Spec.InLoops[ct.name]
+		if spec == nil {
+			spec = ex.top.Spec.InLoops[calleeName(ct.call)]
+		}
+	}
+	if spec == nil {
+		spec = &LoopSpec{}
+	}
+	lname := "repeat." + calleeName(ct.call)
+	evalInvs := func(st *State, goal bool) []string {
+		env := ex.specEnvFor(st, st.frame.fi)
+		var ts []string
+		for _, inv := range spec.Invs {
+			if goal {
+				ts = append(ts, env.goal(inv.E))
+			} else {
+				ts = append(ts, env.boolTerm(inv.E))
+			}
+		}
+		return ts
+	}
+	for i, t := range evalInvs(st, true) {
+		ex.oblige(st, lname+".entry", spec.Invs[i].Props, t, spec.Invs[i].Src, ct.call.Pos())
+	}
+	// havoc what the callback may write
+	ci := ex.closures[cb.T]
+	ws := ex.writeSetOf(&Frame{fi: ci.fi, info: ci.info, tsub: st.frame.tsub}, []ast.Node{ci.lit.Body})
+	pre := st.snapshot()
+	for obj := range ws.vars {
+		if v, owner, ok := st.frame.lookupVar(obj); ok && !owner.boxed[obj] {
+			owner.vars[obj] = Val{T: ex.w.freshConst("rep_"+obj.Name(), v.S), S: v.S, Go: v.Go}
+		}
+	}
+	ex.havocHeap(st, pre, ws, nil)
+	for _, g := range spec.Ghosts {
+		if id, ok := g.LHS.(*SIdent); ok {
+			if cur, has := st.frame.ghost[id.Name]; has {
+				st.frame.ghost[id.Name] = Val{T: ex.w.freshConst("rep_ghost_"+id.Name, cur.S), S: cur.S, Go: cur.Go}
+			}
+		}
+	}
+	for _, t := range evalInvs(st, false) {
+		st.assume(t)
+	}
+	// one arbitrary call
+	body := st.fork()
+	sig, _ := sigOf(cb.Go)
+	var args []Val
+	cenv := ex.contractEnv(body, c, nil, ct)
+	for i := 0; i < sig.Params().Len(); i++ {
+		a := ex.freshVal(body, "rep_arg", sig.Params().At(i).Type())
+		args = append(args, a)
+		cenv.bind[fmt.Sprintf("cbarg%d", i)] = a
+	}
+	func() {
+		defer ex.specRecover("repeatargs of " + name)
+		for _, r := range c.RepeatArgs {
+			body.assume(cenv.boolTerm(r))
+		}
+	}()
+	nct := &callTarget{kind: "closure", fnVal: cb, args: args, sig: sig, call: ct.call}
+	ex.inlineClosure(body, nct, func(b2 *State, _ []Val) {
+		genv := ex.specEnvFor(b2, b2.frame.fi)
+		for i, a := range args {
+			genv.bind[fmt.Sprintf("cbarg%d", i)] = a
+		}
+		func() {
+			defer ex.specRecover("ghost code of repeated callback")
+			for _, g := range spec.Ghosts {
+				genv.ghostUpdate(g)
+			}
+		}()
+		for i, t := range evalInvs(b2, true) {
+			ex.oblige(b2, lname+".preserve", spec.Invs[i].Props, t, spec.Invs[i].Src, ct.call.Pos())
+		}
+		ex.frameObligations(b2, lname, ct.call.Pos())
+	})
+	k(st)
+	return true
 }
